@@ -8,7 +8,7 @@ using namespace vh;
 
 static Rng rng;
 static const int N = 1024;
-static const char *icls_name[] = {"random", "allmax", "alternate", "spike", "sparse", "square-wave", "tone"};
+static const char *icls_name[] = {"random", "allmax", "alternate", "spike", "sparse", "square-wave", "tone", "constant-or-zero"};
 static const char *tcls_name[] = {"random", "allmax", "alternate", "spikes", "square-wave", "tone"};
 // narrow-band inputs: all the energy of an operand at one frequency of the negacyclic transform (and its odd harmonics for the
 // square waves), at full amplitude; the torus operand of the same case uses the same frequency so that the product does too
@@ -21,6 +21,8 @@ static void fill_int(int32_t *a, int cls, int64_t B) {
         case 2: for (int i = 0; i < N; i++) a[i] = (int32_t) ((i & 1) ? -B : B); break;
         case 3: for (int i = 0; i < N; i++) a[i] = 0; a[rng.below(N)] = (int32_t) ((rng.coin() ? B : -B) + (B > (1 << 20) ? (rng.coin() ? 1 : -3) : 0)); break;   // above 2^20: not a power of two
         case 4: for (int i = 0; i < N; i++) a[i] = rng.below(2) ? (int32_t) B : 0; break;   // binary key pattern scaled by B
+        case 7: { static int turn7 = 0; const int64_t cs[] = {0, 1, -1, B, -B, 2, 0, B - 1};      // the zero polynomial and constants (degree 0)
+                  for (int i = 0; i < N; i++) a[i] = 0; a[0] = (int32_t) cs[turn7++ % 8]; break; }
         case 5: { static int turn = 0; cur_period = 2 << (turn++ % 10); } cur_shift = (int) rng.below(cur_period);      // +,..,+,-,..,- with period 2,4,..,1024
                 for (int i = 0; i < N; i++) a[i] = (int32_t) ((((i + cur_shift) % cur_period) < cur_period / 2) ? B : -B); break;
         case 6: cur_freq = 2 * (int) rng.below(N) + 1; cur_shift = (int) rng.below(2 * N);     // B cos(pi f (i+s)/N), f odd: a single frequency
@@ -62,7 +64,8 @@ int main(int argc, char **argv) {
     const char *tag = args.s("tag", "").c_str();
     std::string tags = args.s("tag", "");
     int64_t B = 1ll << lgB;
-    if (icls == 5 && reps < 10) reps = 10;      // every period 2,4,..,1024 against every torus class
+    if (icls == 5 && reps < 10) reps = 10;
+    if (icls == 7 && reps < 8) reps = 8;          // each of the eight constants against every torus class      // every period 2,4,..,1024 against every torus class
     int64_t tolP = lgB <= 9 ? 2 : 2 * (B >> 9);
     rng.reseed(seed * 1000003ull + icls * 31 + lgB);
     // where the allocator places the polynomials and the library's temporaries modulo 32 (16 is all that is guaranteed)
